@@ -24,8 +24,19 @@ PROPERTY = "C12"
 LEVEL = "fault_enumeration"
 SHARDS = {"quick": 1, "thorough": 1}  # one shard; it runs 16 session subprocesses at a time (threads + subprocess.run)
 BUDGET = {"quick": 100.0, "thorough": 900.0}  # ceilings (heavily loaded machine); typical use is 15-25 s / 2-4 min
-WORKERS = 16
+WORKERS = 24  # sessions mostly sleep (alarms, holds): more children than cores
 REQUIRE = {
+    "ORD_popups_on_after_swap_checked": 100,
+    "ORD_popups_on_after_swap_checked:swapped-before-any-popup": 20,
+    "ORD_popups_on_after_swap_checked:swapped-after-popup-closed": 20,
+    "ORD_popups_on_after_swap_checked:swapped-while-popup-open": 10,
+    "RDW_page_checked_after_swap": 5,
+    "rerun_sessions": 30,
+    "reruns_judged": 60,
+    "reruns_judged:rerun-after-boom": 8,
+    "reruns_judged:rerun-after-base": 5,
+    "reruns_judged:rerun-after-exit": 8,
+    "reruns_judged:rerun-after-scripted-exit": 8,
     "ign_handler_sessions": 20,
     "ign_handler_sessions:ign": 8,
     "ign_handler_sessions:ign:SIGTSTP": 3,
@@ -81,7 +92,7 @@ RULE = (
     "tornado/twisted/trio/zmq, screen with or without hook_event_loop, pop_ups on/off, mouse tracking/bracketed paste/"
     "focus reporting on or off, initial signal dispositions default | application functions | SIG_IGN (all four or one signal)) x scripted session (keys, SGR "
     "mouse presses, focus/paste sequences, SIGWINCH with a real size change, 2 alarms, watch_pipe write, watch_file "
-    "write, pop-up open/close, several keys in one write whose first key makes a callback replace loop.widget by a page of other selectability / other handled keys, keys split over two writes (ESC|[A, a split UTF-8 char, a split SGR mouse report, a split f5) "
+    "write, pop-up open/close, MainLoop.run() called two or three times on the same MainLoop/event-loop/screen objects (every loop but twisted; each run ended by a fault kind or the scripted exit and judged separately), several keys in one write whose first key makes a callback replace loop.widget by a page of other selectability / other handled keys, keys split over two writes (ESC|[A, a split UTF-8 char, a split SGR mouse report, a split f5) "
     "with the second write made after the loop read the first and the loop then held waiting > complete_wait; fixed orders + "
     "seeded shuffles in thorough) x injection (none, or ExitMainLoop / Boom(Exception) / Halt(BaseException) / SystemExit "
     "at the k-th invocation of one of the 8 callback sites, enumerated from the fault-free run of the same "
@@ -133,6 +144,8 @@ TOK = {
     "mab": ("mab", ["m", "a", "b"]),
     "sab": ("sab", ["s", "a", "b"]),
 }
+# the same page swaps with pop_ups=True: before any pop-up was opened, after one was opened and closed, while one is open
+SCRIPT_WP = ["a", "nab", "m1", "sbt", "@alarm0", "ta", "mab", "p", "a", "m1", "c", "sab", "ta", "mab", "p", "wab", "m1", "@alarm1", "mab", "c", "sbt", "@alarm2", "Q"]
 SCRIPT_W = ["a", "nab", "m1", "sbt", "@alarm0", "ta", "wab", "@winch", "@pipe", "mab", "sab", "m3", "@alarm1", "Q"]
 # one key whose bytes reach the terminal in two writes, the second after the loop has read the first: (frag1, frag2, keys)
 SPLIT = {
@@ -171,6 +184,8 @@ def build_script(tokens, cfg):
             steps.append(["alarm", 0, t])
         elif t == "@alarm1":
             steps.append(["alarm", 1, t])
+        elif t == "@alarm2":
+            steps.append(["alarm", 2, t])
         elif t == "@winch":
             steps.append(["winch", [30, 8], t])
         elif t == "@winch2":
@@ -195,7 +210,7 @@ def make_spec(cfg, tokens, inject=None):
         "focus": cfg["focus"],
         "handlers": cfg["handlers"],
         "size": [40, 10],
-        "alarms": [0.09, 0.17],
+        "alarms": [0.09, 0.17, 0.25] if "@alarm2" in tokens else [0.09, 0.17],
         "backstop": 4.0,
         "step_wait": 0.3,
         "script": build_script(tokens, cfg),
@@ -276,7 +291,7 @@ def split_facts(spec, log, limit, ctx):
 def judge(spec, res, ctx, base_rst=None):  # noqa: C901, PLR0912, PLR0915
     """-> list of (signature, message). Counters are added to ctx."""
     v = []
-    tag = cfg_tag(spec)
+    tag = cfg_tag(spec) + spec.get("run_ctx", "")  # a later run() on the same objects: '|rerun-after-<how the previous run ended>'
     log = res["log"]
     inj = spec.get("inject")
     icls = inject_class(spec, log)
@@ -310,6 +325,10 @@ def judge(spec, res, ctx, base_rst=None):  # noqa: C901, PLR0912, PLR0915
     got_keys = []
     popup_open = False
     top = "M"  # which page is loop.widget right now (model of the scripted swaps)
+    swaps_so_far = 0
+    popup_ever = False
+    popup_phase = "none"
+    top_at_alarm = {}  # id(alarm event) -> page that is loop.widget when that alarm fires
     swapped_in_batch = False  # a swap happened while later keys of the same batch were still undelivered
     pending = []  # input events (already filtered) still to be delivered from the last filter call
     events = [e for e in log if e["site"] in ("filter", "keypress", "mouse", "unhandled", "ret", "inject", "alarm", "pipe", "file")]
@@ -333,6 +352,8 @@ def judge(spec, res, ctx, base_rst=None):  # noqa: C901, PLR0912, PLR0915
             swapped_in_batch = False
             continue
         if s in ("alarm", "pipe", "file"):
+            if s == "alarm":
+                top_at_alarm[id(e)] = (top, bool(spec["pop_ups"] and popup_open and top == "M"))
             if pending or stage == "need-unhandled":
                 add("ORD", f"{s}-callback-inside-input-batch", f"{s} callback ran while input {pending!r} was undelivered")
                 ord_broken = True
@@ -348,13 +369,13 @@ def judge(spec, res, ctx, base_rst=None):  # noqa: C901, PLR0912, PLR0915
                 ord_broken = True
                 break
             cur = pending.pop(0)
-            if _swallowed_by_overlay(spec, popup_open, cur):
+            if _swallowed_by_overlay(spec, popup_open and top == "M", cur):
                 # open pop-up + mouse event outside it: the topmost widget (PopUpTarget/Overlay) declines it without
                 # asking any child, so it must have gone to unhandled_input -- which the log would show first
                 add("ORD", "unhandled-input-skipped", f"{cur!r} (outside the open pop-up) never reached unhandled_input")
                 ord_broken = True
                 break
-            if isinstance(cur, str) and not spec["pop_ups"] and not PAGE_SELECTABLE[top]:
+            if isinstance(cur, str) and not PAGE_SELECTABLE[top]:
                 add("ORD", "key-offered-to-unselectable-topmost-widget", f"{cur!r}: the topmost widget is now page {top} (not selectable) but widget {e['w']} {s} was called with {e.get('key', e.get('ev'))!r}; it must go to unhandled_input")
                 ord_broken = True
                 break
@@ -362,7 +383,7 @@ def judge(spec, res, ctx, base_rst=None):  # noqa: C901, PLR0912, PLR0915
             got = e.get("key") if s == "keypress" else e.get("ev")
             recv = top
             want = cur
-            if spec["pop_ups"] and popup_open:
+            if spec["pop_ups"] and popup_open and top == "M":  # only page M carries the pop-up in its canvas
                 recv = "P"
                 if not isinstance(cur, str):
                     want = [cur[0], cur[1], cur[2] - POP["left"], cur[3] - POP["top"]]
@@ -380,12 +401,19 @@ def judge(spec, res, ctx, base_rst=None):  # noqa: C901, PLR0912, PLR0915
             if swapped_in_batch:
                 ctx.count("ORD_same_batch_after_swap_checked")
                 ctx.count(f"ORD_same_batch_after_swap_checked:to-{top}")
+            if spec["pop_ups"] and swaps_so_far:
+                ctx.count("ORD_popups_on_after_swap_checked")
+                ctx.count(f"ORD_popups_on_after_swap_checked:{popup_phase}")
             # model of the spy's documented behaviour
             if s == "keypress":
                 handled = cur in PAGE_HANDLED[e["w"]]
                 if handled and cur == "w":
                     top = "N"
                     swapped_in_batch = bool(pending)
+                    swaps_so_far += 1
+                    popup_phase = "swapped-while-popup-open" if popup_open else ("swapped-after-popup-closed" if popup_ever else "swapped-before-any-popup")
+                if handled and cur == "p" and e["w"] == "M":
+                    popup_ever = True
                 if handled and cur == "p" and e["w"] == "M":
                     popup_open = True
                 if handled and cur == "c" and e["w"] == "P":
@@ -396,13 +424,13 @@ def judge(spec, res, ctx, base_rst=None):  # noqa: C901, PLR0912, PLR0915
             stage = None if handled else "need-unhandled"
             continue
         if s == "unhandled":
-            if stage != "need-unhandled" and pending and _swallowed_by_overlay(spec, popup_open, pending[0]):
+            if stage != "need-unhandled" and pending and _swallowed_by_overlay(spec, popup_open and top == "M", pending[0]):
                 cur = cur_unh = pending.pop(0)
                 stage = "need-unhandled"
                 ctx.count("ORD_input_events_checked")
                 ctx.count("popup_outside_mouse_events")
-            elif stage != "need-unhandled" and pending and isinstance(pending[0], str) and not spec["pop_ups"] and not PAGE_SELECTABLE[top]:
-                # the topmost widget is not selectable: a key goes straight to unhandled_input
+            elif stage != "need-unhandled" and pending and isinstance(pending[0], str) and not PAGE_SELECTABLE[top]:
+                # the topmost widget is not selectable (PopUpTarget.selectable() is its body's): a key goes straight to unhandled_input
                 cur = cur_unh = pending.pop(0)
                 stage = "need-unhandled"
                 ctx.count("ORD_input_events_checked")
@@ -423,6 +451,8 @@ def judge(spec, res, ctx, base_rst=None):  # noqa: C901, PLR0912, PLR0915
             if isinstance(cur_unh, str) and cur_unh in SWAP_KEYS:
                 top = SWAP_KEYS[cur_unh]
                 swapped_in_batch = bool(pending)
+                swaps_so_far += 1
+                popup_phase = "swapped-while-popup-open" if popup_open else ("swapped-after-popup-closed" if popup_ever else "swapped-before-any-popup")
             continue
     complete = not reached
     split_timed_out, _ = split_facts(spec, log, inj_pos if reached else len(log), ctx)
@@ -449,6 +479,7 @@ def judge(spec, res, ctx, base_rst=None):  # noqa: C901, PLR0912, PLR0915
     # ---------------- RDW: logical redraw rule
     limit = inj_pos if reached else len(log)
     vt = VT(spec["size"][0], spec["size"][1])
+    vt_page_at = {}
     vt_state_at = {}  # log index of alarm -> state number readable on the terminal just before it
     for idx in range(limit):
         e = log[idx]
@@ -460,6 +491,7 @@ def judge(spec, res, ctx, base_rst=None):  # noqa: C901, PLR0912, PLR0915
         elif e["site"] == "alarm":
             m = re.search(r"[MNT]S=(\d+)\.", vt.row_text(0)) if vt.alt_screen else None
             vt_state_at[idx] = int(m.group(1)) if m else None
+            vt_page_at[idx] = vt.row_text(0)[:1] if m else None
     rets = {}  # index of stateful event -> state after it
     for idx in range(limit):
         e = log[idx]
@@ -487,6 +519,15 @@ def judge(spec, res, ctx, base_rst=None):  # noqa: C901, PLR0912, PLR0915
             shown = vt_state_at.get(ia)
             if shown is None or shown < need:
                 add("RDW", f"terminal-not-showing-state-after-{need_from}", f"before alarm n={a['n']} the terminal shows state {shown}, but state {need} was set >= 50 ms before its due time")
+            elif not ord_broken and id(a) in top_at_alarm and need == max(sa for ie, sa in rets.items() if ie < ia):
+                # everything that happened before this alarm is >= 50 ms old: the screen must be painted by the page that
+                # is loop.widget now (each page paints its own letter in the top-left corner)
+                ctx.count("RDW_page_checked")
+                want_page = top_at_alarm[id(a)][0]
+                if want_page != "M":
+                    ctx.count("RDW_page_checked_after_swap")
+                if vt_page_at.get(ia) != want_page:
+                    add("RDW", f"terminal-painted-by-replaced-widget|{pop}", f"before alarm n={a['n']} the terminal is painted by page {vt_page_at.get(ia)!r}, but loop.widget is page {want_page!r} since >= 50 ms")
 
     # ---------------- EXIT
     after = [e for e in log[inj_pos + 1 :] if e["site"] in SITES] if reached else []
@@ -606,18 +647,20 @@ def plan_configs(ctx):
             plans.append((base_cfg(loop=lp), SCRIPT_S, "full" if lp in ("select", "asyncio") else "first"))
         for lp in LOOPS:
             plans.append((base_cfg(loop=lp, pop_ups=True), SCRIPT_A, "ends" if lp in ("select", "asyncio") else "few"))
+            plans.append((base_cfg(loop=lp, pop_ups=True), SCRIPT_WP, "min"))  # page swaps under a PopUpTarget
+        plans.append((base_cfg(hook=False, pop_ups=True), SCRIPT_WP, "min"))
         plans.append((base_cfg(hook=False), SCRIPT_A, "first"))
         plans.append((base_cfg(hook=False, pop_ups=True), SCRIPT_B, "few"))
         for lp in ("select", "asyncio", "twisted"):
             plans.append((base_cfg(loop=lp, handlers="custom"), SCRIPT_B, "few"))
         plans.append((base_cfg(mouse=False, paste=False, focus=False), SCRIPT_B, "few"))
         for lp in LOOPS:
-            plans.append((base_cfg(loop=lp), SCRIPT_P, "few"))
+            plans.append((base_cfg(loop=lp), SCRIPT_P, "min"))
         # pages swapped under a batch of keys x applications that ignore signals (all four / one at a time)
         ign = {"select": "ign", "asyncio": "ign:SIGTSTP", "tornado": "ign:SIGWINCH", "twisted": "ign", "trio": "ign:SIGCONT", "zmq": "ign:SIGINT"}
         for lp in LOOPS:
-            plans.append((base_cfg(loop=lp, handlers=ign[lp]), SCRIPT_W, "few"))
-        plans.append((base_cfg(hook=False, handlers="ign"), SCRIPT_W, "few"))
+            plans.append((base_cfg(loop=lp, handlers=ign[lp]), SCRIPT_W, "few" if lp in ("select", "twisted") else "min"))
+        plans.append((base_cfg(hook=False, handlers="ign"), SCRIPT_W, "min"))
         plans.append((base_cfg(), SCRIPT_W, "first"))
         return plans
     for lp in LOOPS:
@@ -626,6 +669,7 @@ def plan_configs(ctx):
         plans.append((base_cfg(loop=lp), SCRIPT_P, "full"))
         plans.append((base_cfg(loop=lp, pop_ups=True, handlers="custom"), SCRIPT_P, "ends"))
         plans.append((base_cfg(loop=lp), SCRIPT_W, "full"))
+        plans.append((base_cfg(loop=lp, pop_ups=True), SCRIPT_WP, "full"))
         plans.append((base_cfg(loop=lp, handlers="ign"), SCRIPT_W, "ends"))
         for one in ("SIGWINCH", "SIGTSTP", "SIGCONT", "SIGINT"):
             plans.append((base_cfg(loop=lp, handlers=f"ign:{one}"), SCRIPT_B, "first"))
@@ -640,6 +684,7 @@ def plan_configs(ctx):
     plans.append((base_cfg(hook=False, pop_ups=True), SCRIPT_A, "full"))
     plans.append((base_cfg(hook=False, handlers="custom", paste=False), SCRIPT_B, "ends"))
     plans.append((base_cfg(hook=False), SCRIPT_W, "full"))
+    plans.append((base_cfg(hook=False, pop_ups=True), SCRIPT_WP, "ends"))
     plans.append((base_cfg(hook=False, handlers="ign"), SCRIPT_W, "ends"))
     plans.append((base_cfg(hook=False, handlers="ign:SIGTSTP"), SCRIPT_B, "first"))
     # seeded shuffles of the long script
@@ -667,6 +712,8 @@ def injection_points(counts, mode):
             ks = sorted({0, n - 1})
         elif mode == "first":
             ks = sorted({0, n // 2, n - 1}) if site == "render" else [0]
+        elif mode == "min":
+            ks = [n // 2] if site == "keypress" else []
         else:  # few
             ks = [0] if site in ("keypress", "alarm", "filter") else ([n // 2] if site == "render" else [])
         pts.extend((site, k) for k in ks)
@@ -728,10 +775,52 @@ def evaluate(ctx, spec, res, base_rst=None):
         ctx.count(f"reach:{name}", n)
     if spec["loop"] in LOOPS and spec["hook"]:
         ctx.count(f"reach:event_loop.{spec['loop']}.run", 1)
-    vs = judge(spec, res, ctx, base_rst)
-    desc = [cfg_of(spec), spec["tokens"], spec.get("inject")]
+    if res.get("runs") and len(res["runs"]) > 1:
+        vs = []
+        ctx.count("rerun_sessions")
+        for k, (spec_k, res_k) in enumerate(run_views(spec, res)):
+            if k:
+                ctx.count("reruns_judged")
+                ctx.count(f"reruns_judged:{spec_k['run_ctx'].lstrip('|')}")
+                ctx.count("RST_checked_between_runs")
+            vs.extend(judge(spec_k, res_k, ctx, base_rst))
+        for e in res["log"]:
+            if e["site"] == "remove_alarm_error":
+                vs.append((f"C12|{cfg_tag(spec)}|RERUN|remove_alarm-between-runs-raised", e["err"]))
+    else:
+        vs = judge(spec, res, ctx, base_rst)
+    desc = [cfg_of(spec), spec["tokens"], spec.get("inject"), [[m.get("tokens"), m.get("inject")] for m in spec.get("more_runs") or []]]
     ctx.case(desc, nontrivial=b"\x1b[?1049h" in res["master"].encode("latin-1"))
     return vs
+
+
+def run_views(spec, res):
+    """a session with several MainLoop.run() calls -> one (spec, result) view per run, judged like a single-run session;
+    the terminal bytes of a run are fed to a fresh VT of the size the terminal had when that run started"""
+    out = []
+    prev = None
+    for k, rec in enumerate(res["runs"]):
+        spec_k = dict(spec, script=rec["script"], inject=rec["inject"], size=rec["size"])
+        spec_k.pop("more_runs", None)
+        if k:
+            spec_k["run_ctx"] = f"|rerun-after-{prev}"
+        res_k = {
+            "spec": spec_k,
+            "log": res["log"][rec["lo"] : rec["hi"]],
+            "late_events": rec["late_events"] if k == len(res["runs"]) - 1 else [],
+            "counts": rec["counts"],
+            "outcome": rec["outcome"],
+            "master": res["master"][rec["master_lo"] : rec["master_hi"]],
+            "termios_before": res["termios_before"],
+            "termios_after": rec["termios_after"],
+            "termios_equal": rec["termios_equal"],
+            "signals": rec["signals"],
+            "started_after": rec["started_after"],
+            "t_set": rec["t_set"],
+        }
+        out.append((spec_k, res_k))
+        prev = rec["inject"]["kind"] if rec["inject"] else "scripted-exit"
+    return out
 
 
 RST_DEFERRED: dict = {}
@@ -767,7 +856,7 @@ def shrink_and_report(ctx, spec, res, vs, known, base_rst=None):
                 ctx.count("RDW_unconfirmed_not_reproducible")
                 continue
             ctx.count("RDW_confirmed_by_rerun")
-        if s2 not in known and s2 not in ctx.violations and spec.get("inject") and not ctx.replaying:
+        if s2 not in known and s2 not in ctx.violations and spec.get("inject") and not spec.get("more_runs") and not ctx.replaying:
             cand = _truncated(spec, res)
             if cand is not None:
                 r2 = pty_term.run_session(cand, 30.0)
@@ -777,6 +866,17 @@ def shrink_and_report(ctx, spec, res, vs, known, base_rst=None):
                         wit = cand
                         ctx.count("witness_shrunk")
         ctx.violation(sig, msg, wit)
+
+
+def _grouped_form(sig):
+    """the 'from any callback' spelling of a per-site EXIT / RST signature (see flush_rst), else None"""
+    m = re.match(r"(.*\|EXIT\|[^|]*(?:-swallowed|-replaced-by:[^|]*))\|inj=[^|:]+:([a-z]+)$", sig)
+    if m:
+        return f"{m.group(1)}|inj=any-callback:{m.group(2)}"
+    m = re.match(r"(.*\|RST\|.*)\|after-[^|:]+:([a-z]+)$", sig)
+    if m:
+        return f"{m.group(1)}|after-{m.group(2)}-from-any-callback"
+    return None
 
 
 def flush_rst(ctx):
@@ -817,6 +917,53 @@ def _truncated(spec, res):
     return cand
 
 
+RERUN_LOOPS = ("select", "asyncio", "tornado", "trio", "zmq")  # a Twisted reactor cannot be restarted
+SCRIPT_R1 = ["a", "bz", "m1", "@alarm0", "@pipe", "@file", "up", "@alarm1", "Q"]
+SCRIPT_R2 = ["a", "up", "@alarm0", "m3", "bz", "Q"]
+SCRIPT_R3 = ["bz", "@alarm0", "m1", "Q"]
+# a (site, k) that SCRIPT_R1 / R2 reach for sure
+R1_POINTS = {"filter": 1, "keypress": 1, "mouse": 0, "unhandled": 0, "alarm": 0, "pipe": 0, "file": 0, "render": 2}
+R2_POINTS = {"filter": 1, "keypress": 0, "mouse": 0, "unhandled": 0, "alarm": 0, "render": 1}
+
+
+def rerun_specs(ctx):
+    """sessions that call MainLoop.run() two or three times on the same MainLoop / event loop / screen objects"""
+    cfgs = [base_cfg(loop=lp) for lp in RERUN_LOOPS] + [base_cfg(hook=False)]
+    if not ctx.quick:
+        cfgs += [base_cfg(loop=lp, pop_ups=True, handlers="custom") for lp in RERUN_LOOPS]
+    combos = []  # (first run fault, second run fault)  fault = None (scripted exit) | (site, kind)
+    if ctx.quick:
+        combos = [
+            (("keypress", "boom"), None),
+            (("alarm", "base"), ("filter", "exit")),
+            (("render", "exit"), ("keypress", "boom")),
+            (("render", "boom"), None),
+            (("unhandled", "sysexit"), ("alarm", "boom")),
+            (None, ("alarm", "base")),
+            (("filter", "exit"), None),
+        ]
+    else:
+        firsts = [None] + [(site, kind) for site in R1_POINTS for kind in ("exit", "boom", "base", "sysexit")]
+        for n, f in enumerate(firsts):
+            combos.append((f, None))
+            site2 = list(R2_POINTS)[n % len(R2_POINTS)]
+            combos.append((f, (site2, ("boom", "exit", "base")[n % 3])))
+    out = []
+    for cfg in cfgs:
+        for f1, f2 in combos:
+            def inj(f, pts):
+                if f is None or (f[0] in ("pipe", "file") and not cfg["hook"]):
+                    return None
+                return {"site": f[0], "k": pts[f[0]], "kind": f[1]}
+            spec = make_spec(cfg, SCRIPT_R1, inj(f1, R1_POINTS))
+            spec["more_runs"] = [
+                {"script": build_script(SCRIPT_R2, cfg), "tokens": SCRIPT_R2, "inject": inj(f2, R2_POINTS), "alarms": [0.07]},
+                {"script": build_script(SCRIPT_R3, cfg), "tokens": SCRIPT_R3, "inject": None, "alarms": [0.07]},
+            ]
+            out.append(spec)
+    return out
+
+
 def rst_details(vs):
     return {sig.split("|RST|", 1)[1].rsplit("|", 1)[0] for sig, _ in vs if "|RST|" in sig}
 
@@ -843,6 +990,7 @@ def _run(ctx, runner):
     base_specs = [make_spec(cfg, toks) for cfg, toks, _ in plans]
     base = runner.run(base_specs)
     todo = []
+    brst_by_tag: dict = {}
     for (cfg, toks, mode), (spec, res) in zip(plans, base):
         vs = evaluate(ctx, spec, res)
         if vs is None:
@@ -850,12 +998,13 @@ def _run(ctx, runner):
         ctx.sample({"cfg": cfg, "tokens": toks, "callback_counts": res["counts"], "outcome": res["outcome"]["how"]}, limit=2)
         shrink_and_report(ctx, spec, res, vs, known)
         brst = rst_details(vs)
+        brst_by_tag.setdefault(cfg_tag(spec), set()).update(brst)
         pts = injection_points(res["counts"], mode)
         ctx.count("injection_points_enumerated", len(pts))
         base_pts = set(pts if (mode != "full" or not ctx.quick) else injection_points(res["counts"], "first"))
         sysexit_pts = set(injection_points(res["counts"], "few" if ctx.quick else "ends")) if (not ctx.quick or (mode == "first" and toks is SCRIPT_S) or mode == "full") else set()
         if toks is SCRIPT_P and ctx.quick:
-            base_pts, sysexit_pts = set(injection_points(res["counts"], "few")), set()
+            base_pts, sysexit_pts = set(injection_points(res["counts"], "min")), set()
         for site, k in pts:
             kinds = ["exit", "boom"]
             if (site, k) in base_pts:
@@ -867,7 +1016,8 @@ def _run(ctx, runner):
     # 1b. the forked-child shortcut must not change what is observed: replay some sessions in brand-new interpreters
     if not runner.fresh:
         probe = [s for s, r in base[: len(LOOPS)] if r and "log" in r]
-        probe += [t[0] for t in todo[:: max(1, len(todo) // 6)]][:6]
+        stable = [t[0] for t in todo if t[0]["inject"]["site"] != "render"]  # which callback a render index hits is timing dependent
+        probe += stable[:: max(1, len(stable) // 6)][:6]
         forked = dict((id(s), r) for s, r in runner.run(probe))
         for s, r2 in run_fresh(probe):
             r1 = forked.get(id(s))
@@ -894,6 +1044,24 @@ def _run(ctx, runner):
             if vs:
                 shrink_and_report(ctx, spec, res, vs, known, brst)
     ctx.count("injected_runs_done", done)
+    # 3. the same objects run again: MainLoop.run() two or three times per session
+    if ctx.more(0.97):
+        judged = []
+        for spec, res in runner.run(rerun_specs(ctx)):
+            vs = evaluate(ctx, spec, res, brst_by_tag.get(cfg_tag(spec)))
+            if vs:
+                judged.append((spec, res, vs))
+        # one mechanism, one signature: a violation in a later run that is also seen in first runs / single-run sessions keeps
+        # the plain signature; '|rerun-after-<...>' is kept only for what shows up in re-runs alone
+        strip = lambda sig: re.sub(r"\|rerun-after-[a-z-]+", "", sig)  # noqa: E731
+        plain_seen = set(known) | set(ctx.violations) | {x[0] for by in RST_DEFERRED.values() for items in by.values() for x in items}
+        plain_seen |= {sig for _, _, vs in judged for sig, _ in vs if "|rerun-after-" not in sig}
+        plain_seen |= {g for g in (_grouped_form(x) for x in plain_seen) if g}
+        for spec, res, vs in judged:
+            vs2 = [(strip(sig), msg) if (strip(sig) in plain_seen or _grouped_form(strip(sig)) in plain_seen) else (sig, msg) for sig, msg in vs]
+            shrink_and_report(ctx, spec, res, vs2, known, brst_by_tag.get(cfg_tag(spec)))
+    else:
+        ctx.inconc("budget-exhausted-before-rerun-sessions")
     flush_rst(ctx)
 
 
